@@ -20,7 +20,7 @@ open SJ SJ.Gen SJ.Model.Lexical SJ.Proofs.LexRound SJ.Proofs.LexModerateMul SJ.P
 
 /-! ## rational arithmetic -/
 
-theorem zpow_split (b : ℚ) (hb : b ≠ 0) (z : Int) : b ^ z = b ^ z.toNat / b ^ (-z).toNat := by
+theorem zpow_split (b : ℚ) (_hb : b ≠ 0) (z : Int) : b ^ z = b ^ z.toNat / b ^ (-z).toNat := by
   rcases Int.le_total 0 z with h | h
   · have h1 : (-z).toNat = 0 := by omega
     obtain ⟨n, rfl⟩ : ∃ n : Nat, z = n := ⟨z.toNat, by omega⟩
